@@ -123,6 +123,12 @@ CLAIMS = {
         "note": "extract_blocks' bookkeeping over Form objects (empty blocks -> None, arity inference) is not lifted. " + TB,
         "technique": "abstract interpretation of the splitting pass on structured symbolic integrands + exact comparison with the projected integrand",
     },
+    "C27": {
+        "level": "other",
+        "text": "Who-may-write analysis over every function and method of the package (1900+): every attribute/item store, del, in-place operator and mutating method call (append, extend, update, pop, sort, ...) is classified by the origin of its receiver (created here / parameter-derived / module state) with a flow-sensitive may-alias pass, interprocedural return summaries (fresh-returning functions, functions returning one of their parameters) and one-level accumulator-parameter checks at every call site. A write through a parameter-derived reference is a violation unless it is the working state of an algorithm object, a constructor (or constructor-only private helper) initialising its own object, a lazily initialised non-identity cache slot, an accumulator that every caller creates itself (deeply, when the write goes through the parameter), or one of 7 reviewed exemptions (eager DAG sharing in expr_equals, hash cache, balanced evaluation stacks, pipeline-internal IntegralData records, per-class counters, per-instance memo tables). A positive control must be flagged on every run.",
+        "note": "Decides absence of in-place writes through references reachable from arguments, which is a necessary condition of the property (any such write is observable by the caller or by later computations sharing the object). Does not decide mutation through module-level state, through closures over non-parameters, through objects stored by reference and written later by another call (e.g. a metadata dict handed to Integral and mutated by its creator), nor pickling/equality of the input before/after. " + TB,
+        "technique": "interprocedural who-may-write / ownership analysis on the AST (origin lattice fresh/input/other, flow-sensitive, summary fixpoint over the call graph)",
+    },
     "C29": {
         "level": "other",
         "text": "cmp_expr and the terminal comparators (dispatch table _terminal_cmps built by evaluating sorting.py's own module-level assignments) are lifted and evaluated on all ordered pairs of a finite universe of abstract expressions (every terminal kind with a dedicated comparator, repr-ordered terminals, multi-indices of different lengths and fixed/free patterns incl. the prefix triple, counters across a digit boundary, operators with shared and with duplicated equal sub-expressions, nodes with different operand counts, arguments with and without parts): antisymmetry on all pairs, transitivity on all triples, ties only between expressions equal up to Index/Label numbers, and an unchanged sign matrix under renumbering of indices and labels (no comparator reads those counts). Sum, Product and Inner __new__ are lifted on both operand orders of every distinguishable pair and must build the same node.",
